@@ -22,11 +22,15 @@ def sanitize_tokens(tokens: Iterable[Token]) -> Iterable[Token]:
         if token.kind is Token.Kind.PYTHON:
             try:
                 token.token = sanitize_python_code(token.token)
-            except UnicodeError as e:
-                # Python cannot even decode the fragment (e.g. lone surrogates).
+            except (ValueError, RecursionError, MemoryError) as e:
+                # Python cannot compile or re-format the fragment although its
+                # syntax is not at fault (lone surrogates, nesting too deep for
+                # the interpreter's stack, integer literals beyond the
+                # conversion limit).
                 raise exc_for_token(
-                    token, f"Python fragment cannot be compiled: {e}"
-                ) from e
+                    token,
+                    f"Python fragment cannot be normalized [{type(e).__name__}: {e}]",
+                ) from None
         yield token
 
 
